@@ -183,6 +183,13 @@ add(Gram("h2", Level([
     Cmds([Cmd(["add"], _c1_add)]),
 ]), short_flags="vn", note="subcommand with its own version, fallback_to_usage"))
 
+_fu = Gram("fu", Level([
+    Named("arg", "a", ["alpha"], arity="req"),
+    Named("arg", "b", ["beta"], arity="req"),
+]), short_args="ab", note="two required arguments, fallback_to_usage (usage on stdout for the empty line only)")
+_fu.usage_fallback = True
+add(_fu)
+
 add(Gram("e1", Level([
     Named("switch", "a", ["alpha"], env="VERIF_A"),
     Named("arg", "b", ["beta"], arity="req", env="VERIF_B"),
@@ -313,3 +320,4 @@ add(Gram("hd", Level([
     Named("arg", "b", ["beta"], arity="opt"),
     Pos("opt"),
 ]), short_flags="a", short_args="b", note="hidden switch next to visible items (ParseHide::meta is Meta::Skip, so the hidden short is not in the tokenizer's table)"))
+C01_GRAMMARS.append("fu")
